@@ -250,10 +250,10 @@ func resetLayers(tier string) []resetLayer {
 	return []resetLayer{
 		saWide, saMultifill, // slowest shards first
 		// prior installed by Reset(data): the second Reset meets an array sized for the first one
-		{Name: "hash-prior-by-reset", Kinds: HashKinds, Geos: wideGeos[:2], Level: 2, Prior: BinaryRange(1, 5), Next: BinaryRange(2, 9), Modes: []int{4}, ResetKinds: []int{1, 2}, Bound: 0},
+		{Name: "hash-prior-by-reset", Kinds: HashKinds, Geos: wideGeos[:2], Level: 2, Prior: BinaryRange(1, 5), Next: BinaryRange(2, 7), Modes: []int{4}, ResetKinds: []int{1, 2}, Bound: 0},
 		// priors long enough to fill and wrap every search structure (hash slots overwritten, bucket ring wrapped)
 		// on the full set of search parameters, everything in one fill so that stale entries stay inside the window
-		{Name: "hash-prior-long", Kinds: HashKinds, Geos: wideGeos[:2], Level: 1, Prior: Union(FewLong(12), BinaryRange(5, 6)), Next: BinaryRange(4, 7), Modes: []int{0}, ResetKinds: []int{0, 2}, Bound: 0},
+		{Name: "hash-prior-long", Kinds: HashKinds, Geos: wideGeos[:2], Level: 1, Prior: Union(FewLong(12), BinaryRange(6, 6)), Next: BinaryRange(4, 6), Modes: []int{0}, ResetKinds: []int{0, 2}, Bound: 0},
 		{Name: "hash-wide", Kinds: HashKinds, Geos: wideGeos, Level: 2, Prior: Binary(3), Next: BinaryRange(1, 7), Modes: []int{0}, ResetKinds: []int{0, 2}, Bound: 0},
 		{Name: "hash", Kinds: HashKinds, BufSizes: []int{3, 8}, Level: 0, Prior: Binary(3), Next: BinaryRange(1, 5), Modes: []int{0, 2}, ResetKinds: []int{0, 3}, Bound: 0, Filter: tinyTables},
 		{Name: "hash-b1", Kinds: HashKinds, BufSizes: []int{3}, Level: 2, Prior: Binary(3), Next: BinaryRange(1, 4), Modes: []int{0}, Bound: 1},
